@@ -28,6 +28,18 @@ def one_start_special(cx):
     for r in rows:
         a = r.cond(lambda c: is_call(canon(c), r'Anchored::is_anchored$') and cstr(canon(c)[2][0]) == cstr(param_at(b, 2)))
         if a is None:
+            # `match anchored { Anchored::No => .., _ => .. }`
+            dv = r.cond(lambda c: c[0] == 'discr' and cstr(c[1]) == cstr(param_at(b, 2)))
+            names = [v['name'] for v in cx.facts.adts['util::search::Anchored']['variants']]
+            if isinstance(dv, int) and dv < len(names):
+                a = names[dv] != 'No'
+            elif isinstance(dv, tuple):
+                rest = [n for i, n in enumerate(names) if i not in dv[1]]
+                if rest and all(n != 'No' for n in rest):
+                    a = True
+                elif rest == ['No']:
+                    a = False
+        if a is None:
             why = 'the special ids do not depend on the requested anchor mode'
             continue
         st = {}
